@@ -166,24 +166,28 @@ theorem ArcInst.decode_eq_tuples (I : ArcInst) (x : List Rat) : I.decode x = arc
 theorem ArcInst.decodeAsserts_eq_tuples (I : ArcInst) (x : List Rat) :
     I.decodeAsserts x = arcAssertsTuples I.g (I.selected x) := rfl
 
-/-- the cache-free `get_routes` of the arc specification against `ArcInst.decode` / `ArcInst.decodeAsserts`: when at
-    least one position is selected and every selected position is a variable index -/
-theorem ArcInst.getRoutes_eq_decode (I : ArcInst) (x : List Rat) (hne : selectedIdx x ≠ [])
+/-- the cache-free `get_routes` of the arc specification against `ArcInst.decode` / `ArcInst.decodeAsserts`: when every
+    selected position is a variable index.  The empty selection is included: no route, and the visit assertion alone
+    decides (`I.decode x = []`, `I.decodeAsserts x = arcAssertsTuples I.g []`). -/
+theorem ArcInst.getRoutes_eq_decode (I : ArcInst) (x : List Rat)
     (hr : ∀ k ∈ selectedIdx x, k < I.vars.length) :
     I.getRoutes x = if I.decodeAsserts x then .ok (I.decode x) else .error .assert := by
-  have hany : (selectedIdx x).any (fun k => decide (I.vars.length ≤ k)) = false := by
-    rw [List.any_eq_false]
-    intro k hk
-    simp only [decide_eq_true_eq, Nat.not_le]
-    exact hr k hk
-  have hemp : (selectedIdx x).isEmpty = false := by
-    cases h : selectedIdx x with
-    | nil => exact absurd h hne
-    | cons a l => rfl
-  unfold ArcInst.getRoutes arcRoutesFrom
-  simp only [hemp, hany, Bool.false_eq_true, if_false]
   rw [ArcInst.decode_eq_tuples, ArcInst.decodeAsserts_eq_tuples, ArcInst.selected_eq]
-  rfl
+  cases hs : selectedIdx x with
+  | nil =>
+    unfold ArcInst.getRoutes
+    simp only [hs, List.isEmpty_nil, if_true, List.filterMap_nil]
+    rfl
+  | cons a l =>
+    have hany : (selectedIdx x).any (fun k => decide (I.vars.length ≤ k)) = false := by
+      rw [List.any_eq_false]
+      intro k hk
+      simp only [decide_eq_true_eq, Nat.not_le]
+      exact hr k hk
+    rw [hs] at hany
+    unfold ArcInst.getRoutes arcRoutesFrom
+    simp only [hs, List.isEmpty_cons, hany, Bool.false_eq_true, if_false]
+    rfl
 
 /-- the cache-free `get_routes` of the sequence specification against `SeqInst.decode`, under the same hypotheses -/
 theorem SeqInst.getRoutes_eq_decode (I : SeqInst) (x : List Rat) (hne : selectedIdx x ≠ [])
@@ -276,7 +280,8 @@ theorem getVarTupleIndex_eq {o : ArcObj} (hc : o.Coherent) (k : Nat) :
   rfl
 
 /-- `get_routes` on a coherent object: the reply of the cache-free `ArcInst.getRoutes`; the object is untouched when
-    nothing is selected and enumerated otherwise -/
+    nothing is selected (the reply is then decided by the visit assertion on the current graph) and enumerated
+    otherwise -/
 theorem getRoutes_eq {o : ArcObj} (hc : o.Coherent) (x : List Rat) :
     o.getRoutes x = (if (selectedIdx x).isEmpty then o else o.E, o.inst.getRoutes x) := by
   unfold getRoutes ArcInst.getRoutes
